@@ -886,7 +886,17 @@ class GromacsRunner:
                                     self.bytes_read += new_bytes
                                     yield data
                             else:
-                                # Data is not ready, just wait:
+                                # Data is not ready. If GROMACS has ended
+                                # (check_poll raises if it failed), this
+                                # frame will never be completed: stop
+                                # reading instead of waiting forever.
+                                if (
+                                    self.check_poll() is not None
+                                    and os.path.getsize(self.trr_file)
+                                    < self.bytes_read + self.data_size
+                                ):
+                                    self.stop_read = True
+                                    return
                                 sleep(self.SLEEP)
                 else:
                     # Header was not ready, just wait before trying again.
